@@ -64,7 +64,7 @@ def quadratic_assignment(distance_matrix: ArrayLike,
     for i, j, k, l in product(range(num_locations), repeat=4):
         if (i,j) != (k,l):
             obj.set_quadratic(x[(i,j)], x[(k,l)], flow_matrix[i][k]*distance_matrix[j][l]
-                              + flow_matrix[k][i]*distance_matrix[j][l])
+                              + flow_matrix[k][i]*distance_matrix[l][j])
 
     model.set_objective(obj)
 
